@@ -230,6 +230,16 @@ def compare_presence(ref_snaps, isd_regions, res, default_region):
     mixed_w = [(k, c if k == "br" else (c, x)) for (k, x, c) in rl if k == "br" or x]
     if got_t == want_t and got_b == want_b and mixed_g != mixed_w:
       res.fail("presence:order:text-vs-br", "region %s %r vs %r" % (sn.id, mixed_g[:8], mixed_w[:8]))
+    # under xml:space=preserve every character of a presented text node is content: none may be lost (or added)
+    raw = {}
+    for (k, x, c) in g.leaves:
+      if k == "text" and nonspace(x):
+        raw.setdefault((c, nonspace(x)), x)
+    for l in sn.leaves:
+      if l.kind == "text" and l.preserve and nonspace(l.text):
+        x = raw.get((tuple(i for i in l.chain if i not in strip), nonspace(l.text)))
+        if x is not None and x != l.text:
+          res.fail("presence:%s:preserved-character" % ("lost" if len(x) < len(l.text) else "changed"), "region %s: %r presented as %r" % (sn.id, l.text, x))
     for c, x in got_t:
       if x in seen_text and seen_text[x] != sn.id:
         res.fail("presence:text-in-two-regions", "%r in %s and %s" % (x, seen_text[x], sn.id))
